@@ -120,6 +120,23 @@ theorem C20_fifo_order (ops : List LOp) (lim : Lim) (now : Nat) :
     s.served ++ waitingList s.o = s.arrivals := by
   exact (lrun_fifo ops _ (by intro _; rfl) (by simp [waitingList])).1
 
+/-- **Window bound for the whole network** — every file connection together, through the FIFO lock of the limiter,
+through limit changes at run time (requests pending on a replaced limiter object are handed to its successor) and
+through periods without a limit. For ANY history of requests (`take_tokens()` calls of any connection), wake-ups of lock
+holders after any sleep, and `set_*_speed_limit` calls (every limit ≤ `Lmax`, 0 = none), in any interleaving: the tokens
+granted while a limit is in force are at most `Lmax·T + Lmax`, plus one grant quantum at the start and per limit change
+(the known finding `C20-full-bucket-stale-clock`). Proof: every such grant is a poll of the *current* limiter object
+(`netPoll_evolves`: a replaced object never grants), so the potential argument of the single limiter carries over. -/
+theorem C20_network_window_partial (Lmax : Nat) (ops : List NOp) (s : NRun)
+    (hwf : s.net.cur.limiter.WF s.net.now Lmax) (hops : NLimitsWithin Lmax ops) :
+    1024 * ((nrun s ops).granted - s.granted)
+      ≤ Lmax * nelapsed ops + 1024 * Lmax + 1024 * minBucket * (1 + nchanges ops) := by
+  obtain ⟨_, h, _⟩ := nrun_phi Lmax ops s hwf hops
+  have h1 := phiL_ge Lmax (nrun s ops).net.cur.limiter (s.net.now + nelapsed ops) (nrun s ops).granted
+  have h2 := phiL_le Lmax s.net.cur.limiter s.net.now s.granted
+  rw [Nat.mul_add, Nat.mul_one]
+  omega
+
 /-- **Bytes follow grants.** Over any history of grants and reads on any number of file connections, counted from
 any moment on: the bytes moved since then are at most the tokens granted since then plus the tokens the connections
 were holding at that moment — at most one grant per connection (`gmax` = 128 B under a limit, 8192 B if the grant
@@ -156,6 +173,13 @@ example : (polls { L := 1024, bucket := 0, last := 0 } 0 (List.replicate 16 10))
 example : (lrun { o := { lim := { L := 1024, bucket := 300, last := 0 }, holder := none, queue := [] }, now := 0,
                   arrivals := [], served := [] }
     [.arrive 7 0, .arrive 8 0, .arrive 9 0, .arrive 5 1, .wake 200, .wake 200]).served = [7, 8, 9, 5] := by decide
+-- four connections, a limit change while two requests are pending, a period without a limit: 2 KiB/s at clock 2048
+-- with an empty bucket and a stale clock -> the first refill fills the bucket (2048 B = 16 grants at most before it is empty)
+example : (nrun { net := { olds := [], cur := .limited { lim := { L := 2048, bucket := 0, last := 0 }, holder := none, queue := [] },
+                            now := 2048 }, granted := 0 }
+    [.poll 0 0, .poll 1 0, .setLimit 1, .poll 2 0, .poll 0 11, .poll 3 0, .setLimit 0, .poll 3 5, .setLimit 2, .poll 1 11]).granted
+      ≤ 2048 + 2048 := by decide
+example : NLimitsWithin 4096 [.poll 0 0, .setLimit 1, .poll 2 0, .setLimit 0, .setLimit 4] := by simp [NLimitsWithin]; decide
 example : (xrun { holding := [0, 0, 0], granted := 0, moved := 0 }
     [.grant 0 128, .grant 2 8192, .move 2 100, .move 0 128, .grant 0 128]).moved = 228 := by decide
 example : 0 < (blockPolls { L := 1024, bucket := 0, last := 0 } 0 (List.replicate 26 (3, 2, 3, 2))).2.2 := by decide
